@@ -46,16 +46,31 @@ def gen_versions(rng):
             ndx += 1
             parents = [DEFV[j] for j in range(i) if rng.random() < 0.6][-2:]
             plan.append(dict(flags=rng.choice([0, 0, 0, 2, 4, 6]), ndx=ndx, names=[DEFV[i]] + parents))
-        for k, p in enumerate(plan):
-            last = k == len(plan) - 1
-            size = 20 + 8 * len(p['names'])
-            vd += struct.pack(E + 'HHHHIII', 1, p['flags'], p['ndx'], len(p['names']), elf_hash(p['names'][0]), 20, 0 if last else size)
-            for j, n in enumerate(p['names']):
-                vd += struct.pack(E + 'II', so[n], 0 if j == len(p['names']) - 1 else 8)
-            defs.append(p)
+        apart = rng.random() < 0.3          # all entries first, then all auxiliary records
+        if apart:
+            auxpos = 20 * len(plan)
+            auxb = b''
+            for k, p in enumerate(plan):
+                last = k == len(plan) - 1
+                vd += struct.pack(E + 'HHHHIII', 1, p['flags'], p['ndx'], len(p['names']), elf_hash(p['names'][0]),
+                                  auxpos + len(auxb) - 20 * k, 0 if last else 20)
+                for j, n in enumerate(p['names']):
+                    auxb += struct.pack(E + 'II', so[n], 0 if j == len(p['names']) - 1 else 8)
+                defs.append(p)
+            vd += auxb
+        else:
+            for k, p in enumerate(plan):
+                last = k == len(plan) - 1
+                size = 20 + 8 * len(p['names'])
+                vd += struct.pack(E + 'HHHHIII', 1, p['flags'], p['ndx'], len(p['names']), elf_hash(p['names'][0]), 20, 0 if last else size)
+                for j, n in enumerate(p['names']):
+                    vd += struct.pack(E + 'II', so[n], 0 if j == len(p['names']) - 1 else 8)
+                defs.append(p)
     # version needs
     vn = bytearray()
     needs = []
+    napart = rng.random() < 0.3
+    nauxb = b''
     for f in range(nneed):
         naux = rng.choice([1, 1, 2, 3])
         auxs = []
@@ -63,10 +78,15 @@ def gen_versions(rng):
             ndx += 1
             auxs.append(dict(name=rng.choice(NEEDV), flags=rng.choice([0, 0, 0, 2, 4, 6]), other=ndx))
         last = f == nneed - 1
-        vn += struct.pack(E + 'HHIII', 1, naux, so[LIBS[f]], 16, 0 if last else 16 + 16 * naux)
-        for j, a in enumerate(auxs):
-            vn += struct.pack(E + 'IHHII', elf_hash(a['name']), a['flags'], a['other'], so[a['name']], 0 if j == naux - 1 else 16)
+        ab = b''.join(struct.pack(E + 'IHHII', elf_hash(a['name']), a['flags'], a['other'], so[a['name']], 0 if j == naux - 1 else 16)
+                      for j, a in enumerate(auxs))
+        if napart:
+            vn += struct.pack(E + 'HHIII', 1, naux, so[LIBS[f]], 16 * nneed + len(nauxb) - 16 * f, 0 if last else 16)
+            nauxb += ab
+        else:
+            vn += struct.pack(E + 'HHIII', 1, naux, so[LIBS[f]], 16, 0 if last else 16 + 16 * naux) + ab
         needs.append(dict(file=LIBS[f], aux=auxs))
+    vn += nauxb
     # symbols: undefined ones take needed versions, defined ones take defined versions
     nsym = rng.choice([1, 2, 4, 5, 9, 13])
     syms = [elfgen.sym_pack(E, is64, 0, 0, 0, 0, 0, 0)]
@@ -204,8 +224,9 @@ def gen_symtab_file(rng):
     machine = rng.choice([62, 183, 21, 243, 22]) if is64 else rng.choice([3, 40, 8, 20])
     nsec = 4
     names = ['', 'main', 'counter', 'a_rather_long_symbol_name_that_needs_truncating_in_narrow_mode', 'x', '_start', 'file.c',
-             'weak_fn', 'tls_var', 'common_blk', 'ifunc_resolver', 'with.dots.and$dollar', 'Z3fooILi3EEvv']
+             'weak_fn', 'tls_var', 'common_blk', 'ifunc_resolver', 'with.dots.and$dollar', 'Z3fooILi3EEvv', 'esc\x1bname', 'us\x1f\x1c']
     tab, offs = elfgen.strtab([n.encode() for n in names])
+    empty_at = len(tab) - 1          # the terminator of the last string: a non-zero offset of an empty name
     types = [0, 1, 2, 3, 4, 5, 6]       # STT_GNU_IFUNC / STB_GNU_UNIQUE have no entry in the clone's description tables
     nloc = rng.choice([1, 2, 4, 7])
     nglob = rng.choice([0, 1, 3, 8, 20])
@@ -228,7 +249,10 @@ def gen_symtab_file(rng):
         vis = rng.choice([0, 0, 0, 1, 2, 3])
         value = rng.choice([0, 8, 0x1000, 0xdeadbeef, 2 ** (cls - 1) + 5])
         size = rng.choice([0, 4, 99999, 100000, 2 ** 31])
-        syms.append(elfgen.sym_pack(E, is64, offs[name.encode()], value, size, (bind << 4) | typ, vis, shndx))
+        noff = offs[name.encode()]
+        if typ == 3 and rng.random() < 0.3:
+            noff = empty_at
+        syms.append(elfgen.sym_pack(E, is64, noff, value, size, (bind << 4) | typ, vis, shndx))
         shape.append((typ, bind, vis, shndx))
     secs = [elfgen.Sec('.text', 1, flags=6, data=b'\x90' * 32, align=16),
             elfgen.Sec('.data', 1, flags=3, data=b'\0' * 16, align=8),
@@ -290,6 +314,11 @@ def gen_reloc_file(rng, type_tables):
         return out, shape
     n1 = rng.choice([1, 2, 5, 12])
     r1, s1 = recs(n1)
+    if rela and not mips64:
+        # R_*_RELATIVE-style entry: no symbol, the addend is a signed number
+        t0 = rng.choice(types)
+        r1 += (struct.pack(E + 'QQq', 0x20, t0, -8) if is64 else struct.pack(E + 'IIi', 0x20, t0 & 0xff, -8))
+        s1.append((t0, 0, -8))
     relsz = ((24 if rela else 16) if is64 else (12 if rela else 8))
     pre = '.rela' if rela else '.rel'
     secs = [elfgen.Sec('.text', 1, flags=6, data=b'\x90' * 0x120, align=16),
@@ -300,6 +329,13 @@ def gen_reloc_file(rng, type_tables):
         r2, s2 = recs(rng.choice([1, 3]))
         secs.append(elfgen.Sec(pre + '.data', 4 if rela else 9, flags=0x40, data=r2, link='.symtab', info='.data', entsize=relsz, align=8))
         shape.append(s2)
+    if rng.random() < 0.3 and not mips64:
+        # static-PIE style: a dynamic relocation section that names no symbol table (sh_link 0), entries without symbols
+        t0 = rng.choice(types)
+        rd = b''.join((struct.pack(E + 'QQ', 0x40 + 8 * k, t0) + (struct.pack(E + 'q', 0x1000 * k) if rela else b'')) if is64 else
+                      (struct.pack(E + 'II', 0x40 + 4 * k, t0 & 0xff) + (struct.pack(E + 'i', 0x1000 * k) if rela else b'')) for k in range(2))
+        secs.append(elfgen.Sec(pre + '.dyn', 4 if rela else 9, flags=2, data=rd, link=0, info=0, entsize=relsz, align=8))
+        shape.append([(t0, 0, None)] * 2)
     secs += [elfgen.Sec('.symtab', 2, data=b''.join(syms), link='.strtab', info=4, entsize=24 if is64 else 16, align=8),
              elfgen.Sec('.strtab', 3, data=tab)]
     img, info = elfgen.build(cls=cls, le=le, machine=machine, etype=1, sections=secs)
@@ -321,7 +357,7 @@ def gen_layout_file(rng):
         return bytes(rng.getrandbits(8) for _ in range(n))
     plan = []          # (name, type, flags, size, align, group)
     if rng.random() < 0.7:
-        plan.append(('.interp', 1, 2, 0, 1, 'ro', b'/lib/ld.so.1\0'))
+        plan.append(('.interp', 1, 2, 0, 1, 'ro', b'/lib/ld.so.1\0' + b'\0' * rng.choice([0, 0, 3])))
     if rng.random() < 0.7:
         plan.append(('.note.gnu.build-id', 7, 2, 0, 4, 'ro',
                      struct.pack(('<' if le else '>') + 'III', 4, 8, 3) + b'GNU\0' + blob(8)))
@@ -477,6 +513,12 @@ def gen_sections_file(rng):
     if rng.random() < 0.5:
         secs.append(elfgen.Sec('.tdata', 1, flags=0x403, data=blob(8), align=8))
         secs.append(elfgen.Sec('.tbss', 8, flags=0x403, data=b'', size=16, align=8))
+    if rng.random() < 0.5:
+        # a gABI-compressed debug section (gcc -gz): the size column shows the stored size, the flags a 'C'
+        import zlib
+        raw = b'some string\0' * 20
+        chdr = struct.pack(E + ('IIQQ' if is64 else 'III'), *((1, 0, len(raw), 1) if is64 else (1, len(raw), 1)))
+        secs.append(elfgen.Sec('.debug_str', 1, flags=0x830, data=chdr + zlib.compress(raw), entsize=1, align=8 if is64 else 4))
     if many:
         for i in range(rng.choice([95, 130])):
             secs.append(elfgen.Sec('.text.f%d' % i, 1, flags=6, data=blob(2), align=2))
@@ -491,6 +533,11 @@ def gen_sections_file(rng):
     secs.append(elfgen.Sec('.symtab', 2, data=b''.join(syms), link='.strtab', info=1, entsize=symsz, align=8))
     if xidx:
         secs.append(elfgen.Sec('.symtab_shndx', 18, data=struct.pack(E + 'IIII', 0, 0, 1, 0), link='.symtab', entsize=4, align=4))
+        if rng.random() < 0.5:
+            # a second symbol table with an index table of its own (other indices than the first one's)
+            dsyms = [elfgen.sym_pack(E, is64, 0, 0, 0, 0, 0, 0), elfgen.sym_pack(E, is64, offs[b'v'], 8, 8, 0x11, 0, 0xffff)]
+            secs.append(elfgen.Sec('.dynsym', 11, flags=2, data=b''.join(dsyms), link='.strtab', info=1, entsize=symsz, align=8))
+            secs.append(elfgen.Sec('.dynsym_shndx', 18, data=struct.pack(E + 'II', 0, 2), link='.dynsym', entsize=4, align=4))
     secs.append(elfgen.Sec('.strtab', 3, data=tab))
     img, info = elfgen.build(cls=cls, le=le, machine=machine, etype=1, sections=secs)
     return img, dict(cls=cls, le=le, machine=machine, sections=len(secs), many=many, xindex=xidx)
